@@ -265,14 +265,18 @@ CLAIMED["C19"] = dict(
          "before matching (dtype effects compared numerically).",
     design_ref="§5 C19", note="A cast (astype) is none of the high-level operations: reported as unknown.")
 CLAIMED["C12"] = dict(
-    technique="correspondence of trace_call / inline_calls with direct application under the reference evaluator and generated code; "
-              "Lean 4 substitution/inlining theorems (PtProofs/C12.lean) when present in the build",
-    text="Tie: seeded functions (bodies = op recipes over 1..4 parameters) returning array/tuple/dict; call sites positional/"
-         "keyword/mixed, repeated calls, nesting <= 3, caller placeholders named like callee parameters (in__pt_0, in_a, ...): "
-         "trace_call results have the shapes/dtypes/values of direct application; tag_all_calls_to_be_inlined + inline_calls yields "
-         "a call-free graph with identical values; generated code of graphs with calls agrees. Theorems (model of placeholder "
-         "substitution without capture and of inlining): listed in the evidence when PtProofs/C12.lean is present; until then the "
-         "evidence falls back to the generic counts.",
+    technique="Lean 4 theorems about placeholder substitution without capture and call inlining over a term model + correspondence "
+              "of trace_call / inline_calls with direct application (reference evaluator and generated code)",
+    text="Proved (model Pt.Calls, any value type and operation interpretation): subst_no_capture (substituting bindings for "
+         "parameters, without re-traversing what was substituted, denotes the body under the bound values — also when caller and "
+         "callee names coincide); inline_sound (inlining every call preserves the value: nested/repeated calls, name clashes); "
+         "inline_call_free; trace_names_agree and trace_binding_names_nodup (the parameter-name set of a traced definition equals "
+         "the binding-name set for any positional/keyword mixture; no collisions given the RE_ARGNAME rejection); retraverse_wrong "
+         "(a substitutor that recurses into its own output is wrong on a concrete clash). Tie: seeded functions (1..4 parameters; "
+         "array/tuple/dict returns), call sites positional/keyword/mixed, repeated, nested <= 3, caller placeholders named like "
+         "callee parameters: trace_call results have the shapes/dtypes/values of direct application; tag_all_calls_to_be_inlined "
+         "+ inline_calls gives a call-free graph with identical values; generated code of graphs with calls agrees. Partial: "
+         "single-return model; trace_call_denote is validated by the correspondence, not proved.",
     design_ref="§5 C12", note="Graphs are deduplicated first (two trace_calls of one Python function give equal but distinct definitions).")
 
 CLAIMED["C05"] = dict(
